@@ -49,6 +49,11 @@ def plan(tier, seed):
                       'nmut': rnd.choice([0, 0, 1, 1, 2]), 'npos': npos,
                       'whole': False, 'format': rnd.choice(FORMATS),
                       'seed': '%s/C17/o%d' % (seed, i)})
+    # buffers edited in place: successive Scripts on one path, every reported position checked
+    # against the text of the version that was asked
+    for i in range(max(8, n_online // 10)):
+        specs.append({'id': 'c17h-%d' % i, 'kind': 'history', 'length': 10 if tier == 'quick' else 30,
+                      'seed': '%s/C17/h%d' % (seed, i)})
     specs += WITNESSES
     return specs
 
@@ -104,7 +109,50 @@ def reformat(text, kind, rnd):
     return text
 
 
+def run_history(spec):
+    """An edit history of one buffer (vf.gen.edits.structured_history: parameter lists, bodies,
+    names, docstrings of functions change, functions appear and disappear) asked about through a
+    new Script on the same path per version, within the validity window of jedi's time-based
+    caches (virtual clock, half a second per version)."""
+    from vf.driver import digest
+    from vf.gen import edits
+    from vf.props.c08 import VirtualClock
+    import jedi.cache as jcache
+    clock = VirtualClock()
+    jcache.time = clock
+    rnd = random.Random(spec['seed'])
+    rec = apimon.Recorder()
+    hist = edits.structured_history(rnd, spec['length'])
+    case_dir = os.path.join(os.environ.get('VERIF_RUN_DIR', '/var/tmp'), 'cases')
+    os.makedirs(case_dir, exist_ok=True)
+    path = os.path.join(case_dir, spec['id'] + '.py')
+    try:
+        for i, (text, pos, kind) in enumerate(hist):
+            clock.now += 0.5
+            rec.ev('c17h:versions')
+            before = len(rec.violations)
+            sweepwl.run_text(rec, text, path, pos, witness={'case': spec['id'], 'version': i, 'edit': kind},
+                             deep=False, check_fragment=False,
+                             methods=['get_signatures', 'infer', 'goto', 'complete', 'help', 'get_references'])
+            for v in rec.violations[before:]:
+                v['witness']['text'] = text[:6000]
+                if i:
+                    v['witness']['previous_text'] = hist[i - 1][0][:6000]
+    finally:
+        import time as _time
+        jcache.time = _time
+    vio = [v for v in rec.violations if v['key'].startswith('c17')]
+    return {'id': spec['id'], 'digest': digest([h[0] for h in hist]),
+            'nontrivial': rec.events.get('c17:positions_checked', 0) >= 10,
+            'events': {k: v for k, v in rec.events.items() if not k.startswith('call:')},
+            'violations': vio,
+            'sample': {'case': spec['id'], 'versions': len(hist), 'edits': [h[2] for h in hist][:12],
+                       'positions_checked': rec.events.get('c17:positions_checked', 0)}}
+
+
 def run(spec):
+    if spec['kind'] == 'history':
+        return run_history(spec)
     if spec['kind'] != 'enum':
         return run_online(spec)
     from vf.driver import digest
